@@ -14,8 +14,10 @@ import (
 
 // ---- terms shared by the suites
 
-func addrZ(a types.Address) interface{} { return Big(new(big.Int).SetBytes(a.Bytes())) }
-func hashZ(h types.Hash) interface{}    { return Big(new(big.Int).SetBytes(h.Bytes())) }
+// Hashes and addresses are only compared for equality by the model: they are sent as 40-bit identifiers (bytes
+// 0..4 of a hash, bytes 1..5 of an address). Long decimal literals are what makes the in-Coq evaluation slow.
+func addrZ(a types.Address) interface{} { return Big(new(big.Int).SetBytes(a.Bytes()[1:6])) }
+func hashZ(h types.Hash) interface{}    { return Big(new(big.Int).SetBytes(h.Bytes()[:5])) }
 
 func delegTerm(d *types.PillarDelegation) interface{} {
 	return Tup(Byt([]byte(d.Name)), addrZ(d.Producing), Big(d.Weight))
@@ -124,7 +126,10 @@ func runElection(rng *rand.Rand, n int, out *Out, _ []string) {
 			case 1:
 				w = big.NewInt(int64(rng.Intn(3))) // many ties, zero weights
 			case 2:
-				w = new(big.Int).Mul(big.NewInt(rng.Int63()), big.NewInt(rng.Int63())) // beyond 64 bits
+				w = big.NewInt(rng.Int63n(1 << 40))
+				if rng.Intn(8) == 0 {
+					w = new(big.Int).Mul(big.NewInt(rng.Int63()), big.NewInt(rng.Int63())) // beyond 64 bits
+				}
 			default:
 				w = big.NewInt(int64(1000 - i))
 			}
